@@ -113,9 +113,14 @@ func concPrograms() []program {
 		{"BooleanOpPolyTree64(Union,EvenOdd)", func(reg func(any)) clipper.Paths64 {
 			t := clipper.BooleanOpPolyTree64(clipper.Union, concSubj, concClip, clipper.EvenOdd)
 			out := clipper.Paths64{}
-			for _, n := range flattenT(t.PolyPathBase) {
-				out = append(out, to64(n.Poly))
+			var walk func(n *clipper.PolyPathBase)
+			walk = func(n *clipper.PolyPathBase) {
+				for _, ch := range n.GetChildren() {
+					out = append(out, ch.Polygon())
+					walk(ch)
+				}
 			}
+			walk(t.PolyPathBase)
 			return out
 		}},
 		{"InflatePaths64(Miter,Joined)", func(reg func(any)) clipper.Paths64 {
